@@ -221,14 +221,11 @@ def tableOK (b : Blk) : Bool :=
 
 def tablesOK (H : Hier) : Bool := H.all fun b => !b.kind.isBranching || tableOK b
 
-/-- Every successor named by a block of `G` exists in `G`. -/
-def targetsClosed (G : Hier) : Bool :=
-  G.all fun b => b.jts.all fun t => (G.get? t).isSome
-
-/-- The decider the harness evaluates on real outputs. -/
-def ctlOK (G H : Hier) (gtop htop : Name) : Bool :=
-  targetsClosed G && (initOrig G gtop).isSome &&
-  simNameOK G H gtop htop true && simRegionOK G H gtop htop true && tablesOK H
-
+/-- C06: on every path through the hierarchy (either walk, latches consuming their variable) no
+    control-variable error occurs, and the tables agree with the successor tuples. -/
+def ctlOK (H : Hier) (htop : Name) : Bool :=
+  reachOK (sysName H true) Obs.isCtlErr (initName H htop true) (simFuel H H) &&
+  reachOK (sysRegion H true) Obs.isCtlErr (initRegion H htop true) (simFuel H H) &&
+  tablesOK H
 
 end Scfg
